@@ -5,6 +5,7 @@ package main
 import (
 	"fmt"
 	"go/types"
+	"runtime/debug"
 	"strings"
 
 	"golang.org/x/tools/go/ssa"
@@ -43,8 +44,8 @@ type FuncResult struct {
 	SpecChecks  []specCheck
 }
 
-func (p *Program) verifyFunc(name string, c *FuncContract) *FuncResult {
-	res := &FuncResult{Name: name, Contract: c}
+func (p *Program) verifyFunc(name string, c *FuncContract) (res *FuncResult) {
+	res = &FuncResult{Name: name, Contract: c}
 	fn := p.funcs[name]
 	if fn == nil {
 		res.Fatal = []string{fmt.Sprintf("function %s under contract does not exist in the loaded packages (contract out of date)", name)}
@@ -66,7 +67,7 @@ func (p *Program) verifyFunc(name string, c *FuncContract) *FuncResult {
 	vc.curFrame = fr
 	defer func() {
 		if r := recover(); r != nil {
-			res.Fatal = append(res.Fatal, fmt.Sprintf("generator panic in %s: %v", name, r))
+			res.Fatal = append(res.Fatal, fmt.Sprintf("generator panic in %s: %v\n%s", name, r, truncate(string(debug.Stack()), 1800)))
 		}
 	}()
 	vc.declare("alloc0", SInt)
@@ -80,7 +81,7 @@ func (p *Program) verifyFunc(name string, c *FuncContract) *FuncResult {
 		fr.params = append(fr.params, tv(t))
 		ex.typeInvariant(st, t, prm.Type())
 	}
-	pkg := fn.Pkg.Pkg
+	pkg := fnPkg(fn)
 	for _, fv := range fn.FreeVars {
 		// closures verified on their own: free variables are opaque cells
 		et := fv.Type().(*types.Pointer).Elem()
@@ -331,9 +332,9 @@ func (o *Obligation) Query(preamble string) string {
 var _ = ssa.NaiveForm
 
 // verifyLemma: requires ==> ensures over fresh parameters.
-func (p *Program) verifyLemma(l *LemmaDecl) *FuncResult {
+func (p *Program) verifyLemma(l *LemmaDecl) (res *FuncResult) {
 	name := "lemma." + l.Name
-	res := &FuncResult{Name: name, File: shortFile(l.File)}
+	res = &FuncResult{Name: name, File: shortFile(l.File)}
 	vc := NewVC(p, nil, nil)
 	vc.sprintfFormats = map[string]string{}
 	res.VC = vc
